@@ -620,7 +620,7 @@ pub fn check(tier: &str) -> i32 {
             "samples": samples,
             "public_methods_found_in_sources": api,
             "methods_in_table": map_methods().len() + set_methods().len(),
-            "states": STATES.iter().map(|s| format!("{:?}", s)).collect::<Vec<_>>(),
+            "structural_states": STATES.iter().map(|s| format!("{:?}", s)).collect::<Vec<_>>(),
             "calls_rejected_by_panic": rejected,
             "second_pass_without_flurry_debug_assertions": {"cases": nda_cases, "calls_rejected_by_panic": nda_rejected, "calls_that_returned_without_touching_memory_through_the_foreign_guard": nda_harmless},
             "calls_that_returned_without_touching_memory_through_the_foreign_guard": harmless,
